@@ -15,7 +15,8 @@ RULE = ('valence-valid molecules: corpus sample, curated feature molecules and m
         "pairs of the repository's group tests; operations {standardize, canonicalize, fix_resonance, neutralize, "
         'standardize_charges, explicify/implicify_hydrogens, enumerate_tautomers}; relations checked per execution: heavy-atom '
         'multiset, net charge and total H conserved (neutralize: delta charge = delta H), no valence error, no exception, '
-        'idempotence, explicify/implicify inverse, equivariance under renumbering, documented pair reached; rule-fired '
+        'idempotence (also with every cached derived view read before / between the calls), explicify/implicify inverse, equivariance '
+        'under renumbering, documented pair reached (also with the group two and three times on one carbon); rule-fired '
         'recorder from standardize(logging=True); non-trivial = molecule on which the operation changed something, distinct '
         'by (operation, canonical input)')
 ASSUMPTIONS = ['CachedMethods compatibility shim', 'numbering independence is judged with fix_tautomers=False except on the '
@@ -24,10 +25,12 @@ ASSUMPTIONS = ['CachedMethods compatibility shim', 'numbering independence is ju
 CONFIG = {
     'quick': {'shards': 16, 'budget_s': 120, 'n_corpus': 320, 'k_renum': 1, 'n_taut': 100,
               'floors': {'evaluations': 5000, 'distinct_nontrivial': 300, 'ops.executed': 5000, 'ops.changed-something': 300,
-                         'pairs.documented': 110, 'rules.distinct-fired': 60, 'renumbered.compared': 1000, 'tautomers.generated': 60}},
+                         'pairs.documented': 110, 'rules.distinct-fired': 60, 'renumbered.compared': 1000, 'tautomers.generated': 60,
+                         'pairs.geminal': 100, 'warm-cache.compared': 1500, 'inputs.quaternized': 60}},
     'thorough': {'shards': 16, 'budget_s': 2400, 'n_corpus': 4200, 'k_renum': 4, 'n_taut': 800,
                  'floors': {'evaluations': 150000, 'distinct_nontrivial': 3000, 'ops.executed': 100000, 'ops.changed-something': 5000,
-                            'pairs.documented': 110, 'rules.distinct-fired': 70, 'renumbered.compared': 40000, 'tautomers.generated': 4000}},
+                            'pairs.documented': 110, 'rules.distinct-fired': 70, 'renumbered.compared': 40000, 'tautomers.generated': 4000,
+                            'pairs.geminal': 100, 'warm-cache.compared': 30000, 'inputs.quaternized': 600}},
 }
 EXTRA = ['CN(=O)=O', 'C[N+](=O)[O-]', 'CN=[N+]=[N-]', 'CN=N#N', 'C[S+](C)[O-]', 'CS(C)=O', 'O=[N+]([O-])c1ccccc1', 'C[N+](C)(C)[O-]',
          'CC(=O)[O-].[Na+]', 'C[NH3+].[Cl-]', 'CC(O)=CC', 'CC(=O)CC(C)=O', 'Oc1ccccn1', 'O=c1cccc[nH]1', 'Oc1ncnc2[nH]cnc12', 'NC(=N)N',
@@ -35,6 +38,8 @@ EXTRA = ['CN(=O)=O', 'C[N+](=O)[O-]', 'CN=[N+]=[N-]', 'CN=N#N', 'C[S+](C)[O-]', 
          'C1=CC=C[CH-]1.[Fe+2].C1=CC=C[CH-]1', '[Cu+2].[O-]S(=O)(=O)[O-]', 'C[N+]#[C-]', 'CN#C', '[O-][n+]1ccccc1', 'On1ccccc1=O', 'C=CO', 'CC=C(O)C',
          'N=C(N)c1ccccc1', 'OC(=O)c1ccccc1O', 'OC(=O)CC(O)(CC(O)=O)C(O)=O', 'NCC(O)=O', '[NH3+]CC([O-])=O', 'CS(=O)(=O)[O-].[K+]', 'CC[N+](CC)(CC)CC.[OH-]',
          'c1cc[nH+]cc1.[Cl-]', 'C[n+]1ccccc1.[I-]', 'Cc1[nH]cnc1C', 'Cc1nc[nH]c1C', 'O=C1NC(=O)c2ccccc12', 'OC1=NC(=O)c2ccccc12', 'CC(=O)Nc1ccc(O)cc1',
+         'CC[n+]1ccn(C)c1', 'C[n+]1ccn(Cc2ccccc2)c1', 'Cc1cc[nH+][nH]1', 'CCN1C=C[N+](C)=C1', 'CC(C)[n+]1ccn(C)c1', 'Cc1[nH]cc[nH+]1',
+         'Cn1cc[n+](c1)C[C@H](N)C(O)=O', 'CCn1cc[n+](C)c1C', 'C[n+]1csc2ccccc12', 'CCn1c[n+](C)c2ccccc12', 'CN(C)C(C)=[N+](C)CC',
          '[H]OC', '[H]N([H])C(=O)C', '[2H]OC', 'C[C@H](N)C(=O)O', 'C[C@H]([NH3+])C([O-])=O', 'OC[C@H](O)[C@@H](O)[C@H](O)[C@H](O)C=O']
 
 
@@ -51,6 +56,78 @@ def documented_pairs():
                 if isinstance(el, ast.Tuple) and len(el.elts) == 2 and all(isinstance(x, ast.Constant) for x in el.elts):
                     out.append((el.elts[0].value, el.elts[1].value))
     return out
+
+
+def _split_methyl(text):
+    """'C' + rest where the leading C is a methyl carrying the group `rest`; None when the spelling has ring digits / CX part"""
+    import re
+    if ' ' in text or re.search(r'\d', text.replace('+2', '').replace('+3', '').replace('-2', '')):
+        return None
+    if len(text) < 2 or text[0] != 'C' or text[1] == 'l' or not (text[1].isupper() or text[1] == '['):
+        return None
+    try:
+        m = smiles(text)
+    except Exception:
+        return None
+    a = m.atom(1)
+    if a.atomic_symbol != 'C' or len(m._bonds[1]) != 1 or a.implicit_hydrogens != 3:
+        return None
+    return text[1:]
+
+
+def geminal_pairs():
+    """documented spellings with the group attached two and three times to one carbon (and once next to another documented
+    group): (raw, documented result) built from the (input, canonical) pairs of the repository"""
+    out = []
+    parts = []
+    for raw, res in documented_pairs():
+        a, b = _split_methyl(raw), _split_methyl(res)
+        if a is not None and b is not None:
+            parts.append((a, b))
+            for k in (2, 3):
+                out.append(('C' + ''.join('(%s)' % a for _ in range(k - 1)) + a, 'C' + ''.join('(%s)' % b for _ in range(k - 1)) + b))
+    for i in range(len(parts)):
+        a, b = parts[i]
+        a2, b2 = parts[(i * 7 + 3) % len(parts)]
+        out.append(('C(%s)%s' % (a, a2), 'C(%s)%s' % (b, b2)))
+    return out
+
+
+def overlapping_single_pass_groups(m):
+    """recorded limitation of the rule engine: two matches of one single-pass rule share an atom that is not an [A] atom of the
+    rule (e.g. the carbon between two C-N(C)#N groups); the engine skips the second match by design and fixes it on the next call"""
+    from chython.algorithms.standardize._groups import single_rules
+    for pattern, atom_fix, bonds_fix, any_atoms, is_tautomer in single_rules:
+        seen = []
+        for mp in pattern.get_mapping(m, automorphism_filter=False):
+            match = set(mp.values())
+            anys = {mp[n] for n in any_atoms}
+            for other, oanys in seen:
+                common = match & other
+                if common and match != other and not common <= (anys | oanys):
+                    return True
+            seen.append((match, anys))
+            if len(seen) > 50:
+                break
+    return False
+
+
+WARM = ('__str__', 'atoms_order', 'sssr', '_chiral_morgan', 'smiles_atoms_order', 'connected_components', 'brutto', 'aromatic_rings',
+        'stereogenic_tetrahedrons', 'rings_count')
+
+
+def warm(m):
+    """read every cached derived view: an operation must not depend on what was looked at before"""
+    for name in WARM:
+        try:
+            str(m) if name == '__str__' else getattr(m, name)
+        except Exception:
+            pass
+    try:
+        hash(m)
+    except Exception:
+        pass
+    return m
 
 
 def totals(m):
@@ -128,8 +205,10 @@ def fresh(m):
     return c
 
 
-def run_op(ctx, name, m, ft, src):
+def run_op(ctx, name, m, ft, src, warmed=False):
     c = fresh(m)
+    if warmed:
+        warm(c)
     try:
         OPS[name](c, ft)
     except Exception as e:
@@ -179,6 +258,16 @@ def check_ops(ctx, m, src, cfg, rng, tautomer_fix_ok):
         r2 = run_op(ctx, name, r, ft, src)
         if r2 is not None and not same_molecule(r, r2):
             ctx.violation('not-idempotent/%s' % name, '%s: %s -> %s -> %s' % (src, m, r, r2), w)
+            continue
+        # the same with every cached view read before the call (input) and between the two applications (result)
+        rw = run_op(ctx, name, m, ft, src, warmed=True)
+        ctx.count('warm-cache.compared')
+        if rw is not None and not same_molecule(r, rw):
+            ctx.violation('result-depends-on-cache-state/%s' % name, '%s: cold %s, after reading derived views %s' % (src, r, rw), w)
+            continue
+        r2w = run_op(ctx, name, r, ft, src, warmed=True)
+        if r2w is not None and not same_molecule(r, r2w):
+            ctx.violation('not-idempotent/%s/derived-views-read-in-between' % name, '%s: %s -> %s -> %s' % (src, m, r, r2w), w)
             continue
         # renumbering equivariance
         use_ft = tautomer_fix_ok
@@ -312,6 +401,32 @@ def worker(ctx):
                                                                        for k, b in tmp._bonds[n].items()) for n, a in tmp.atoms())
             ctx.violation('not-idempotent/standardize' + ('/adjacent-cationic-nitrogens' if adj else ''),
                           '%s -> %s -> %s' % (raw, tmp, again), {'smiles': raw, 'op': 'standardize'})
+    # the same groups twice / three times on one carbon, and next to another documented group
+    for k, (raw, result) in enumerate(geminal_pairs()):
+        if not ctx.mine(k):
+            continue
+        ctx.evaluations += 1
+        w = {'smiles': raw, 'op': 'standardize'}
+        try:
+            src_m = smiles(raw)
+            tmp = fresh(src_m)
+            tmp.standardize()
+            want = smiles(result)
+            again = fresh(tmp)
+            changed = again.standardize()
+        except Exception as e:
+            ctx.violation('operation-raises/standardize/%s' % type(e).__name__, '%s: %r' % (raw, e), w)
+            continue
+        ctx.count('pairs.geminal')
+        ctx.case(key=('geminal', raw), nontrivial=True, n=0)
+        adj = any(a.atomic_number == 7 and a.charge == 1 and any(tmp._atoms[k].atomic_number == 7 and tmp._atoms[k].charge == 1 and b.order == 2
+                                                                   for k, b in tmp._bonds[n].items()) for n, a in tmp.atoms())
+        if tmp != want:
+            tag = '/overlapping-single-pass-groups' if overlapping_single_pass_groups(src_m) else ''
+            ctx.violation('documented-spelling-not-reached/several-groups' + tag, '%s -> %s, documented %s' % (raw, tmp, result), w)
+        elif again != tmp or changed:
+            ctx.violation('not-idempotent/standardize' + ('/adjacent-cationic-nitrogens' if adj else '/several-groups'),
+                          '%s -> %s -> %s' % (raw, tmp, again), w)
     c = T.corpus()
     corpus_set = set(c)
     ids = list(range(len(c)))
@@ -336,6 +451,12 @@ def worker(ctx):
                 d = G.graft(k, rng)
                 if d is not None:
                     variants.append((str(d), d, False))
+            q = G.quaternize(k, rng)
+            if q is not None:
+                ctx.count('inputs.quaternized')
+                variants.append((str(q), q, False))
+                if ctx.tier == 'quick' and rng.random() < .7:
+                    variants = variants[-1:]
         except Exception:
             pass
         if ctx.tier == 'quick':
